@@ -510,12 +510,22 @@ def r4_category(rep, ctx):
             kw = {k.arg: k.value for k in c.keywords}
             if "category" not in kw or "values" not in kw or (isinstance(kw["values"], ast.List) and not kw["values"].elts):
                 continue
-            for a_ in alternatives(fres.term(kw["category"])):
+
+            def first_category(first):
+                recv = first[1] if first[0] == "attr" and first[2] == "category" else first[1][1] if (first[0] == "call" and first[1][0] == "attr" and first[1][2] == "GetCategory") else None
+                return recv is not None and recv[0] == "call" and recv[1] == ("name", "next") and any(x == PSC for x in walk(recv))
+
+            alts_ = alternatives(fres.term(kw["category"]))
+            for a_ in alts_:
                 if a_[0] == "op" and a_[1] == "Or" and len(a_[2]) == 2 and a_[2][0] == PCAT:
-                    first = a_[2][1]
-                    recv = first[1] if first[0] == "attr" and first[2] == "category" else first[1][1] if (first[0] == "call" and first[1][0] == "attr" and first[1][2] == "GetCategory") else None
-                    if recv is not None and recv[0] == "call" and recv[1] == ("name", "next") and any(x == PSC for x in walk(recv)):
+                    if first_category(a_[2][1]):
                         ok = True
+            if not ok and len(alts_) == 2 and PCAT in alts_ and any(first_category(a_) for a_ in alts_):
+                # `if not category: category = first.category`: the replacement is chosen where the given one is falsy
+                fcfg = CFG(fs.node)
+                for st_, t_ in fres.origins(kw["category"]):
+                    if st_ is not None and t_ != PCAT and first_category(t_):
+                        ok = any(k_ == "truth" and not pos_ and fres.term(l_) == PCAT for k_, l_, r__, pos_ in nfacts(fcfg, fcfg.node_of(st_)))
     rep.check(ok, "C02.R4", "FromScalars:category", "the Array takes the given category or the first scalar's", "FromScalars does not default the category to the first scalar's category", fn=fs)
     # ChangingIndex: scalars built from plain numbers / tuples take the array's unit only -> default category
     ci = m.own_method("FixedArray", "ChangingIndex")
